@@ -59,7 +59,9 @@ func vfHostOnly(h string) string {
 // vfPrefixMatches: prefix (normal form) matches path on a segment boundary.
 func vfPrefixMatches(prefix, path string) bool {
 	if prefix == "/" {
-		return strings.HasPrefix(path, "/")
+		// the root prefix matches every request, including the empty path of an absolute-form
+		// request line without one ("GET http://host HTTP/1.1"), which is equivalent to "/" (RFC 3986 6.2.3)
+		return path == "" || strings.HasPrefix(path, "/")
 	}
 	return path == prefix || strings.HasPrefix(path, prefix+"/")
 }
